@@ -602,7 +602,7 @@ static void vf_dfs(int depth, int last_depth, int do_noops, int do_fail, int do_
             }
             continue;
         }
-        if (do_fail && (kind == OP_INS || kind == OP_INS2)) {
+        if (do_fail && (kind == OP_INS || kind == OP_INS2) && !(depth == 0 && (code < VF_FIRST_LO || code > VF_FIRST_HI))) {
             /* C16: the allocation of this insert fails */
             vf_fail_at = vf_mallocs;
             vf_op(kind, i, depth, 1, 1);
